@@ -42,6 +42,23 @@ def run(ck):
     if THEOREMS:
         ck.prove('C05', THEOREMS)
     fails, mism = wk.campaign(ck, ck.scale(40, 1200), oracle, gen_kw={'extra_prob': 0.0}, coq_lanes=1, coq_every=2)
+    # small-circuit stress: 2-4 gates, many lanes, so that every primitive sees internally generated pulses on its pins
+    import random
+    rng = random.Random(ck.seed * 7919 + 505)
+    for i in range(ck.scale(200, 8000)):
+        k = wk.gen_wave_case(rng, n_gates=rng.choice([2, 3, 4]), seq=False, extra_prob=0.0, sims=8, reuse=False,
+                             capmode='16', style=rng.choice(['full', 'spread', 'polfree']), allow_dangling=False, tcap=None)
+        try:
+            w = wk.run_case(k)
+            what = oracle(k, w)
+        except Exception as e:
+            what = f'raises {type(e).__name__}: {e}'
+        ck.count(k.sims, 'small-circuit-stress')
+        ck.nontrivial(('st', i))
+        if what:
+            fails.append((wk.describe(k), 'small-circuit stress: ' + what))
+            if len(fails) > 5:
+                break
     ck.rule('random circuits x integer delays x capacities x stimuli over {0,1,R,F} with arbitrary transition times; both simulators '
             '(LogicSim m=8 with both option settings vs WaveSim); distinct = circuit/delay-style/capacity fingerprint')
     wk.report(ck, fails, mism, 'logic8-vs-wave', 'wave_sim.WaveSim vs logic_sim.LogicSim(m=8)')
